@@ -169,7 +169,10 @@ CLAIMS = {
        "checked for an exception (a failed write is never reported as success - this obligation failed on the original tree, defect F3, "
        "now fixed); Saver.close never finalises after unfinished writes. The file-system level (temp directory, renames, retry after a "
        "fault) is a bounded fault enumeration with a failing file-system shim on the real FileSaver and both processors.",
-  note="Not covered: abrupt process death inside an OS call, forked (inlined) savers, savers closed by other threads. Known finding F20 "
+  note="Also proved: FileSaver._save_chunk (chunk files go into the temporary directory), FileSaver._close (rename to the final name "
+       "only after the complete metadata was flushed), strax.io.save_file (temporary name first) and check_cache's dominance "
+       "obligations (nothing is saved while incomplete data is tolerated / under a partial request). "
+       "Not covered: abrupt process death inside an OS call, forked (inlined) savers, savers closed by other threads. Known finding F20 "
        "(an OSError at creation of the storage parent directory is treated as 'frontend cannot save') is reported as KNOWN-FINDING.",
   technique="contract-based deductive verification of exceptional postconditions + bounded fault enumeration",
   design_ref="DESIGN.md section 6 (C04) and 10"),
@@ -201,7 +204,10 @@ CLAIMS = {
        "takes only tracked options; DataDirectory._folder_matches accepts a folder only for its own data type and run and, without fuzzy "
        "settings, only under the identical lineage hash; nothing is saved while fuzzy matching is on. The end-to-end clause (get_array equals a brand-new context on empty storage after any operation sequence), "
        "key sensitivity, exactness of fuzzy acceptance and hash stability across insertion orders / hash seeds are bounded stand-ins.",
-  note="Not proved: deterministic_hash / hashablize, _filter_lineage, key_for / get_data_key, DataDirectory's directory lookup, child "
+  note="Also proved: DataKey._run_id (the key of a superrun hashes its complete definition), Context._set_plugin_config (defaults are "
+       "resolved into a copy of the context's configuration), and - a rule of the generator - no function under contract is memoised "
+       "(cached_property / lru_cache fail a contract-shape obligation; _find_options is re-evaluated on every lookup). "
+       "Not proved: deterministic_hash / hashablize, _filter_lineage, key_for / get_data_key, DataDirectory's directory lookup, child "
        "plugins' lineage, option validation (strax/config.py). Plugins, options and lineages are opaque values with uninterpreted "
        "contains / getitem; the filtering dict comprehension is a trusted library model.",
   technique="contract-based deductive verification (obligations at the lineage store via hooks, ghost flags for registry / cache writes) + bounded stand-ins on the real Context",
@@ -217,7 +223,11 @@ CLAIMS = {
        "stand-ins on the real code: multi_run with real threads released in enumerated completion orders (every run executed exactly "
        "once, output in run-id order with the run id attached, failures raised or omitted), and Context.get_array over several runs "
        "with 1..8 workers equals sequential single-run calls.",
-  note="Not proved: that every run is submitted exactly once (islice window arithmetic), that the final list comprehension applies the "
+  note="Also proved: multi_run for calls that pass run_id_as_bytes / add_run_id_field (the run-id column has the type of the id array as "
+       "finally cast), the list runs are scheduled from is stable_sort(np.array(run_ids)) (every requested id, duplicates included), "
+       "Context.get_iter, and Context.get_array / Context.make handing a multi-run request to multi_run with the request's own targets, "
+       "save list, worker count and chunk numbers. "
+       "Not proved: that every run is submitted exactly once (islice window arithmetic), that the final list comprehension applies the "
        "computed order, the temporary merge plugin in Context.get_array. Thread-safety of the shared Context (plugin registry and "
        "caches) under line-level interleavings is a concurrency property this technique family does not decide; the context-level "
        "stand-in runs under the OS scheduler only.",
@@ -289,9 +299,11 @@ CLAIMS = {
        "computation and the chunks tile the run, independent of source chunking, processor, workers, lazy / eager, capacity, rechunk on "
        "save and stored subset - is a bounded stand-in on the real Context for a graph with row-wise, filtering, same-kind merging, "
        "multi-output, overlap-window and exhaust plugins.",
-  note="The composition is NOT proved: Plugin.iter's buffering, Chunk.concatenate / merge, PostOffice / SaverSpy (single-thread bus), "
-       "divide_outputs, loop and down-chunking plugin classes. 'All thread schedules' is covered for the mailbox layer by C05 only; the "
-       "stand-in runs under the OS scheduler.",
+  note="The composition is NOT proved: Plugin.iter's buffering, the PostOffice as a whole, divide_outputs, loop plugins; the stand-in "
+       "covers them on its scope (a down-chunking plugin and a plugin paced by it are in its graph). OPEN GAP: "
+       "ParallelSourcePlugin.inline_plugins is neither under contract nor in the stand-in's scope (process pools); a seeded change "
+       "there is not detected (DESIGN.md 10.5). 'All thread schedules' is covered for the mailbox layer by C05 only; the stand-in "
+       "runs under the OS scheduler.",
   technique="contract-based deductive verification of the building blocks + bounded stand-in on the real Context for the composition",
   design_ref="DESIGN.md section 6 (C01) and 10"),
 }
